@@ -31,6 +31,9 @@ Proof. unfold gen_health_trips. rewrite Z.geb_leb. reflexivity. Qed.
 Lemma health_check_timeout_agree : gen_health_check_timeout = health_check_timeout.
 Proof. reflexivity. Qed.
 
+Lemma verify_settle_delay_agree : gen_verify_settle_delay = verify_settle_delay.
+Proof. reflexivity. Qed.
+
 Lemma watch_check_interval_agree : gen_watch_check_interval = watch_check_interval.
 Proof. reflexivity. Qed.
 
